@@ -17,6 +17,7 @@ class Abort(BaseException):
 
 
 MAX_EXPIRIES = 3
+_CLOSE = b'\x00close-sentinel'
 
 
 class VT:
@@ -48,7 +49,13 @@ class VT:
     # --- threading.Thread / mp.Process API ---
     def start(self):
         self.sched.op(('start', self))
+        parent = self.sched.current.owner()
         self.sched.register(self)
+        if self.kind == 'process':
+            # fork: the child gets the parent's pipe handles as they are at this moment - closed ones stay closed
+            for q in self.sched.queues:
+                if parent in getattr(q, 'handles_closed', ()):
+                    q.handles_closed.add(self.owner())
 
     def join(self, timeout=None):
         r = self.sched.op(('join', self, timeout))
@@ -97,8 +104,14 @@ class VQueue:
         self.feeder = feeder
         self.buffers = {}
         self.feeders = {}
+        # Queue.close() in one process: that process may not put/get any more (closed_in); its feeder thread, once it has
+        # flushed what is buffered, closes the process's pipe handles (handles_closed) - a process forked later inherits them closed
+        self.closed_in = set()
+        self.handles_closed = set()
 
     def put(self, item, block=True, timeout=None):
+        if self.sched.current.owner() in self.closed_in:
+            raise ValueError('Queue %r is closed' % self.name)
         if self.feeder:
             self.sched.op(('put-local', self))
             owner = self.sched.current.owner()
@@ -115,9 +128,20 @@ class VQueue:
     def _feed(self, owner):
         while True:
             self.sched.op(('feed', self, owner))
-            self.items.append(self.buffers[owner].popleft())
+            x = self.buffers[owner].popleft()
+            if x is _CLOSE:
+                self.handles_closed.add(owner)
+                return
+            if owner in self.handles_closed:
+                continue                  # send on a closed handle: the feeder reports the error, the item is lost
+            self.items.append(x)
 
     def get(self, block=True, timeout=None):
+        if self.sched.current.owner() in self.closed_in:
+            raise ValueError('Queue %r is closed' % self.name)
+        if self.sched.current.owner() in self.handles_closed:
+            self.sched.op(('get-closed', self))
+            raise OSError('handle is closed')
         if timeout is not None or not block:
             # a timed wait: it may expire whenever the rest of the system is only waiting for its environment
             self.sched.op(('get-timed', self))
@@ -128,19 +152,24 @@ class VQueue:
                 raise __import__('queue').Empty()
         else:
             self.sched.op(('get', self))
+            if not self.items:
+                raise OSError('handle is closed')
         x = self.items.popleft()
         v = pickle.loads(x) if self.pickled else x
         self.sched.current.observe('get', self.name, repr(v))
         return v
 
     def snapshot(self):
-        return (tuple(x if self.pickled else pickle.dumps(x) for x in self.items),
+        base = (tuple(x if self.pickled else pickle.dumps(x) for x in self.items),
                 tuple(sorted((str(o), tuple(b)) for o, b in self.buffers.items() if b)))
+        if self.closed_in or self.handles_closed:
+            base = base + (tuple(sorted(self.closed_in)), tuple(sorted(self.handles_closed)))
+        return base
 
     def peek_rows(self):
         out = [pickle.loads(x) if self.pickled else x for x in self.items]
         for b in self.buffers.values():
-            out.extend(pickle.loads(x) for x in b)
+            out.extend(pickle.loads(x) for x in b if x is not _CLOSE)
         return out
 
     def empty(self):
@@ -150,7 +179,13 @@ class VQueue:
         return len(self.items)
 
     def close(self):
-        pass
+        self.sched.op(('close-q', self))
+        owner = self.sched.current.owner()
+        if owner in self.closed_in:
+            return
+        self.closed_in.add(owner)
+        if self.feeder and owner in self.feeders:
+            self.buffers.setdefault(owner, collections.deque()).append(_CLOSE)
 
     def join_thread(self):
         pass
@@ -266,7 +301,7 @@ class Sched:
             return False
         k = op[0]
         if k == 'get':
-            return len(op[1].items) > 0
+            return len(op[1].items) > 0 or vt.owner() in op[1].handles_closed
         if k == 'feed':
             return len(op[1].buffers.get(op[2], ())) > 0
         if k == 'flush':
